@@ -209,6 +209,27 @@ def Desc.address (P : Params) (net : Network) : Desc → Option (Network × Payl
 def Desc.addressString (P : Params) (net : Network) (d : Desc) : Option String :=
   (d.address P net).map fun a => a.2.toString a.1
 
+/-- `DescriptorType` -/
+inductive DescType | bare | sh | pkh | wpkh | wsh | shWsh | shWpkh | tr
+  deriving DecidableEq, Repr
+
+/-- `Descriptor::desc_type` -/
+def Desc.descType : Desc → DescType
+  | .bare _ => .bare
+  | .pkh _ => .pkh
+  | .wpkh _ => .wpkh
+  | .sh (.wsh _) => .shWsh
+  | .sh (.wpkh _) => .shWpkh
+  | .sh (.ms _) => .sh
+  | .wsh _ => .wsh
+  | .tr .. => .tr
+
+/-- `DescriptorType::segwit_version` -/
+def DescType.segwitVersion : DescType → Option Nat
+  | .tr => some 1
+  | .wpkh | .shWpkh | .wsh | .shWsh => some 0
+  | .bare | .sh | .pkh => none
+
 /-- `Descriptor::unsigned_script_sig` -/
 def Desc.unsignedScriptSig (P : Params) : Desc → Bytes
   | .sh inner => shUnsignedScriptSig P inner
